@@ -1,36 +1,32 @@
 (* C01 - bounded queue: each element delivered exactly once, FIFO, with exclusive access.
-   Only statements; proofs are `exact <lemma of BQ/BQProofs.v>`.
+   Only statements; proofs are `exact <lemma of BQ/*.v>`.  Reach k progs s = "s is reachable from the initial state of the queue of
+   capacity 2^k with client programs `progs` under SOME schedule (list of thread ids, clock ticks included)", so every theorem
+   about reachable states is quantified over all schedules, all capacities 2^k, all thread counts and all client programs mixing
+   push, pop, try_push, try_pop, push_n, pop_n, try_push_n, try_pop_n and the timed exclusive pop with any CONCURRENT /
+   USE_FUTEX_WAIT / USE_FUTEX_WAKE flags that satisfy the documented pairing rules (usage_ok).
 
-   PROVED here, for every capacity 2^k, every ticket and every 16-bit version (the expressions are the ones regenerated from
-   bounded_queue.hpp into Gen_bounded_queue.v, so an edit of `(index >> _slot_bits) << 1`, `+ 1`, `index & _slot_mask`,
-   `(index + _slot_mask + 1) & ~_slot_mask`, the `<=` split tests, the segment lengths, `expected_version + 1`,
-   `index + 1` / `index + num`, the ready tests or the memory orders re-opens a proof):
-     c01_ticket_owns_slot_version   a (side, slot, expected version) triple belongs to exactly one ticket - the arithmetic
-                                    fact behind "exclusive access" and "exactly once": whoever sees version == expected for
-                                    its ticket is the only one entitled to the slot at that version
-     c01_push_pop_versions_differ   a producer and a consumer never wait for the same version of a slot
-     c01_versions / c01_slot_index / c01_round / c01_split_sound
-                                    push expects 2*(i/cap), pop 2*(i/cap)+1 on slot i mod cap; a batch of n <= cap tickets is
-                                    cut into <= 2 consecutive segments that add up to n and each stay inside one round, so the
-                                    single expected version computed from the first index is right for the whole segment
-     c01_next_version / c01_next_index / c01_ready_tests / c01_try_n_short
-                                    publication stores expected+1; try_ CASes index -> index+1 / index+num; every readiness
-                                    test is equality of version and expected version
-     c01_version16_sound            16-bit truncation is exact below 2^16 rounds of lag
-     c01_memory_order_obligations   release exchange / acquire+release(+seq_cst) fences of the batch paths, acquire version
-                                    load and release version store of the single paths are what the source says
-   PARTIAL - NOT PROVED (time): the schedule-quantified invariants of BQModel itself, stated below at full strength as
-   c01_exactly_once_statement, c01_exclusive_statement, c01_fifo_realtime_statement, c01_try_fail_justified_statement.
-   The intended proof is the ticket-interval invariant (threads hold disjoint ticket intervals below next_push/next_pop;
-   version(slot i) <= expected(i) for every held ticket i; an observed-ready slot stays ready by c01_ticket_owns_slot_version)
-   over the 24 program counters of BQModel.step.  Until it is mechanised these statements are checked, at every run, by
-   exhaustive exploration of the extracted model on the small programs (every terminal state must have err = false and
-   delivered included in pushed: signature model-unsafe) and by the monitors on the real implementation (conservation, no
-   duplicate, real-time FIFO, exclusive cells, justified try_ failures).  The compensating push_n/pop_n(cb, reverse_cb, n)
-   variants are outside the Coq model (monitors only).  Weak memory: only the obligations above, no WM machine. *)
+   PROVED (all "Closed under the global context"):
+   schedule-quantified, from the ticket-interval invariant of BQ/BQInvMain.v (threads hold pairwise disjoint ticket intervals
+   below next_push / next_pop; version(slot i) <= expected(i) for every held or future ticket i; an observed-ready slot stays
+   ready because a (side, slot, version) triple belongs to one ticket; slot payload/owner state follows the version parity):
+     c01_exclusive            no callback ever enters a slot that is owned or whose payload is in the wrong state (err = false)
+     c01_exactly_once         delivered (pop ticket, value) pairs are pushed (push ticket, value) pairs with the same ticket; no
+                              ticket delivered twice, none written twice; at quiescence pushed = delivered + still in its slot
+     c01_fifo_realtime        tickets respect real time (see the statement); with c01_exactly_once this is FIFO
+     c01_try_fail_justified   a failing / short try_ call saw a not-ready slot for the then-next ticket, or the ticket moved
+   arithmetic of the regenerated expressions, for every capacity 2^k (an edit of `(index >> _slot_bits) << 1`, `+ 1`,
+   `index & _slot_mask`, `(index + _slot_mask + 1) & ~_slot_mask`, the `<=` split tests, the segment lengths,
+   `expected_version + 1`, `index + 1` / `index + num`, the ready tests or the memory orders re-opens a proof - and these lemmas
+   are what the invariant proof uses):
+     c01_ticket_owns_slot_version, c01_push_pop_versions_differ, c01_versions, c01_slot_index, c01_round, c01_split_sound,
+     c01_next_version, c01_next_index, c01_ready_tests, c01_try_n_short, c01_version16_sound, c01_memory_order_obligations
+   NOT COVERED by the Coq model (monitors on the implementation only): the compensating push_n/pop_n(cb, reverse_cb, n) variants.
+   Model assumptions: sequentially consistent interleavings (release/acquire publication is reduced to the memory-order
+   obligations on the regenerated site tables, no weak-memory machine); unbounded versions in the model (16-bit truncation handled
+   by c01_version16_sound under < 2^15 rounds of lag); size_t tickets do not wrap; callbacks do not touch the queue. *)
 From Coq Require Import ZArith List Bool.
 Require Import Verif.Gen.Gen_bounded_queue Verif.Conc.Machine Verif.BQ.BQModel Verif.BQ.BQProofs.
-Require Import Verif.BQ.BQInvDefs Verif.BQ.BQInvStep Verif.BQ.BQInvMain Verif.BQ.BQInvThm Verif.BQ.BQFifo.
+Require Import Verif.BQ.BQInvDefs Verif.BQ.BQInvStep Verif.BQ.BQInvMain Verif.BQ.BQInvThm Verif.BQ.BQWake Verif.BQ.BQFifo Verif.BQ.BQTry.
 Import ListNotations.
 Local Open Scope Z_scope.
 
@@ -118,7 +114,6 @@ Theorem c01_exactly_once : forall k progs s, usage_ok k progs = true -> Reach k 
 Proof. exact bq_exactly_once_full. Qed.
 Print Assumptions c01_exactly_once.
 
-(* ---- full-strength statements that are NOT proved (see header): kept visible, checked by exploration + monitors ---- *)
 (* real-time order of tickets (FIFO).  held s r u i = thread u holds ticket i of side r in s (acquired, not yet published).
    For any reachable moment s and any later state s' = run s sch: the ticket counters only grow; a ticket that a thread holds in
    s' and did not hold in s is >= the counter at s; a (ticket, value) written / delivered after s by an operation that did not
@@ -138,11 +133,14 @@ Theorem c01_fifo_realtime : forall k progs s, usage_ok k progs = true -> Reach k
 Proof. exact bq_fifo_realtime. Qed.
 Print Assumptions c01_fifo_realtime.
 
-(* a try_ operation fails or comes up short only if the slot of the next ticket was not ready while it was the next ticket
-   (queue full / empty at that moment) or another operation of the same side moved the ticket during the call *)
-Definition c01_try_fail_justified_statement : Prop := forall k progs s th i o r, usage_ok k progs = true -> Reach k progs s ->
+(* a try_ operation fails or comes up short only if, at one of its version loads, the slot of the then-next ticket was not ready
+   (queue full / empty at that moment: r_full) or another operation of the same side moved the ticket during the call (r_over);
+   the two ghost flags are set by BQModel.step exactly at those events (set_just) *)
+Theorem c01_try_fail_justified : forall k progs s th i o r, usage_ok k progs = true -> Reach k progs s ->
   In th (threads s) -> nth_error (prog th) i = Some o -> nth_error (results th) i = Some r ->
   (okind o = KTry \/ okind o = KTryN) -> (r_cnt r < onum o)%nat -> r_full r = true \/ r_over r = true.
+Proof. exact bq_try_fail_justified. Qed.
+Print Assumptions c01_try_fail_justified.
 
 (* non-vacuity: a usage_ok program with batches crossing the ring end; a run that delivers what was pushed *)
 Example c01_usage_example : usage_ok 1 [[OPush f111 1; OPushN f111 [2; 3]]; [OPop f111; OPopN f111 2]] = true.
